@@ -5,12 +5,12 @@ Exit status: 0 = property held on everything explored (KNOWN-FINDING lines allow
 2 = harness error (never confused with either).
 """
 import argparse
-import concurrent.futures
 import faulthandler
 import gc
 import importlib
 import json
 import multiprocessing
+import multiprocessing.connection
 import os
 import signal
 import subprocess
@@ -169,24 +169,69 @@ def _work(chunk):
     return agg
 
 
+def _child(conn, chunk):
+    try:
+        conn.send(("ok", _work(chunk)))
+    except HarnessError as e:
+        conn.send(("harness", str(e)))
+    except BaseException as e:   # pylint: disable=broad-except
+        conn.send(("harness", "worker exception: " + "".join(traceback.format_exception(e))[-3000:]))
+    finally:
+        conn.close()
+
+
+def chunk_indices(k, runs, nchunks):
+    return list(range(k, runs, nchunks))
+
+
+def n_chunks(runs, jobs):
+    return max(1, min(runs, jobs * 6))
+
+
 def run_batch(mod, seed, tier, runs, wall, jobs):
+    """Every chunk of run indices is executed by its own freshly forked child, so the
+    process state a run sees is a function of (tree, seed, the earlier runs of its chunk)
+    only -- which is what makes a history-dependent violation replayable."""
     ctx = multiprocessing.get_context("fork")
-    nchunks = max(1, min(runs, jobs * 6))
-    chunks = [list(range(k, runs, nchunks)) for k in range(nchunks)]
+    nchunks = n_chunks(runs, jobs)
+    chunks = [chunk_indices(k, runs, nchunks) for k in range(nchunks)]
     _G.update(mod=mod, seed=seed, tier=tier, deadline=time.monotonic() + wall)
-    results = []
-    if jobs == 1:
-        for c in chunks:
-            results.append(_work(c))
+    results = [None] * nchunks
+    if jobs == 1 and os.environ.get("VERIF_INPROCESS") == "1":
+        for k, c in enumerate(chunks):
+            results[k] = _work(c)
     else:
-        with concurrent.futures.ProcessPoolExecutor(max_workers=jobs, mp_context=ctx) as ex:
-            futs = [ex.submit(_work, c) for c in chunks]
-            try:
-                for f in futs:
-                    results.append(f.result(timeout=wall + HANG_TIMEOUT + 60))
-            except concurrent.futures.process.BrokenProcessPool as e:
-                raise HarnessError("a worker died (hang or crash): %r" % (e,))
-            except concurrent.futures.TimeoutError:
+        pending = list(range(nchunks))
+        live = {}
+        hard_deadline = time.monotonic() + wall + HANG_TIMEOUT + 60
+        while pending or live:
+            while pending and len(live) < jobs:
+                k = pending.pop(0)
+                parent, child = ctx.Pipe(duplex=False)
+                proc = ctx.Process(target=_child, args=(child, chunks[k]))
+                proc.start()
+                child.close()
+                live[k] = (proc, parent)
+            ready = multiprocessing.connection.wait([c for (_, c) in live.values()], timeout=5)
+            for k in list(live):
+                proc, conn = live[k]
+                if conn in ready:
+                    try:
+                        kind, payload = conn.recv()
+                    except EOFError:
+                        kind, payload = "harness", "worker for chunk %d died (exit %s)" % (
+                            k, proc.exitcode)
+                    conn.close()
+                    proc.join(30)
+                    del live[k]
+                    if kind != "ok":
+                        for (p2, c2) in live.values():
+                            p2.kill()
+                        raise HarnessError(payload)
+                    results[k] = payload
+            if time.monotonic() > hard_deadline:
+                for (p2, c2) in live.values():
+                    p2.kill()
                 raise HarnessError("worker pool timed out")
     merged = {"runs": 0, "executions": 0, "steps": 0, "faults": {}, "probes": {}, "extra": {},
               "states": set(), "inter": set(), "nontrivial": set(), "digests": [],
@@ -241,15 +286,44 @@ def minimise(mod, case, klass):
     return small, execs, True
 
 
-def write_replay(pid, seed, run, case, violation):
+def write_replay(pid, seed, run, case, violation, history=None):
     d = os.path.join(VERIF_DIR, "replays")
     os.makedirs(d, exist_ok=True)
     path = os.path.join(d, "%s-%d-%d.json" % (pid, seed, run))
+    data = {"property": pid, "seed": seed, "run": run, "case": case, "violation": violation}
+    if history:
+        data["history"] = history
+        data["note"] = ("the violation depends on process state left behind by the earlier "
+                        "executions listed under 'history' (same worker, same order)")
     with open(path, "w") as f:
-        json.dump({"property": pid, "seed": seed, "run": run, "case": case,
-                   "violation": violation}, f, indent=1, sort_keys=True)
+        json.dump(data, f, indent=1, sort_keys=True)
         f.write("\n")
     return path
+
+
+def history_fallback(mod, pid, seed, tier, runs, jobs, i, v, vcase):
+    """The violation of run i does not reproduce from its case alone: look for the
+    shortest prefix of its own chunk (a fresh child executed exactly those runs, in that
+    order) that makes it reproduce in a fresh interpreter."""
+    nchunks = n_chunks(runs, jobs)
+    prefix = [j for j in chunk_indices(i % nchunks, runs, nchunks) if j < i]
+    full = mod.generate(seed, i, tier)
+    cands = [[i]]
+    if prefix:
+        cands.append(prefix[-1:])
+        cands.append(prefix[-4:])
+        cands.append(prefix)
+    tried = []
+    for idxs in cands:
+        if idxs in tried:
+            continue
+        tried.append(idxs)
+        hist = [mod.generate(seed, j, tier) for j in idxs]
+        for case in (vcase, full):
+            path = write_replay(pid, seed, i, case, v, history=hist)
+            if fresh_replay(pid, path):
+                return path
+    return None
 
 
 def fresh_replay(pid, path):
@@ -310,6 +384,12 @@ def do_replay(mod, pid, path):
     with open(path) as f:
         data = json.load(f)
     case = data["case"]
+    for earlier in data.get("history", []):
+        # process history the violation depends on (earlier runs of the same worker)
+        try:
+            safe_execute(mod, earlier)
+        except HarnessError:
+            pass
     if data.get("hashseed_pair"):
         a, b = data["hashseed_pair"]
         da, db = _digest_under(pid, path, a), _digest_under(pid, path, b)
@@ -400,15 +480,19 @@ def main(argv=None):
             if len(reported) >= 3:
                 break
             small, execs, ok = minimise(mod, vcase, k)
-            if not ok:
-                raise HarnessError("violation of run %d did not reproduce in-process: %r"
+            path = None
+            if ok:
+                out = safe_execute(mod, small)
+                path = write_replay(pid, seed, i, small, out.violation)
+                if fresh_replay(pid, path):
+                    reported.append((i, out.violation, path, execs))
+                    continue
+            path = history_fallback(mod, pid, seed, args.tier, runs, jobs, i, v, vcase)
+            if path is None:
+                raise HarnessError("violation of run %d (%r) reproduces neither from its case "
+                                   "nor from its chunk's history in a fresh interpreter"
                                    % (i, v))
-            out = safe_execute(mod, small)
-            path = write_replay(pid, seed, i, small, out.violation)
-            if not fresh_replay(pid, path):
-                raise HarnessError("violation of run %d (%r) did not reproduce in a fresh "
-                                   "interpreter from %s" % (i, v, path))
-            reported.append((i, out.violation, path, execs))
+            reported.append((i, v, path, execs))
 
         hs_info = None
         hs_runs = getattr(mod, "HASHSEED_RUNS", {}).get(args.tier, 0)
